@@ -1,11 +1,17 @@
 ------------------------------- MODULE J_C04 -------------------------------
 (* C04: no input makes a parser, decoder or accessor panic or hang (sweep events carry counts and every non-normal outcome). *)
 EXTENDS Judge, Sequences, TLC
+IsPartialSite(site) == Len(site) >= 8 /\ SubSeq(site, 1, 8) = "partial "
 JSweepOutcome(e) ==
   LET cls == e.fn \o "/" \o (IF "cls" \in DOMAIN e THEN e.cls ELSE "-") IN
   << R("C04", "sweep_executed", TRUE, e.r.n >= 1, cls),
      R("C04", "all_calls_returned_normally", e.r.n >= 1 /\ Len(e.r.bad) = 0, TRUE, cls) >>
-  \o [i \in 1..Len(e.r.bad) |-> R("C04", "returns_normally", TRUE, FALSE, e.fn \o "/" \o e.r.bad[i].site)]
+  \o [i \in 1..Len(e.r.bad) |->
+        \* sites "partial ...": methods of a value that came back together with an error (structure-aware mutation, not only truncation) - C20
+        IF IsPartialSite(e.r.bad[i].site)
+        THEN R("C20", IF SubSeq(e.r.bad[i].site, 1, 14) = "partial verify" THEN "partial_value_never_verifies" ELSE "partial_value_method_returns_normally", TRUE, FALSE, e.fn \o "/" \o e.r.bad[i].site)
+        ELSE R("C04", "returns_normally", TRUE, FALSE, e.fn \o "/" \o e.r.bad[i].site)]
+  \o << R("C20", "partial_values_touched", "partial" \in DOMAIN e /\ e.partial, e.r.npartial >= 0, cls) >>
 
 \* ApiSweep: one record per exported package-level function.  A function whose parameters are only byte strings, strings,
 \* integers and booleans is a "parser/decoder/size-lookup" in the sense of C04 (inputs: byte strings and type/size arguments);
